@@ -95,6 +95,8 @@ def check(ctx):
     _binding(rep, model)
     _attrs(rep, model)
     _liveness(rep, model)
+    from . import c07b
+    c07b.run(rep, model)
     return rep
 
 
